@@ -20,15 +20,15 @@ instance : Inhabited UAcc := ⟨{}⟩
 def UAcc.toU (a : UAcc) : Universe :=
   { empty := a.empty, apply := fun σ x => ((a.app.find? (·.1 == (σ, x))).map (·.2)).getD [],
     initial := a.initial, inferral := a.inferral, expansion := a.expansion, ver := a.ver, sym := a.sym, expandVerified := a.ev }
-partial def runSched (u : Universe) (fuel : Nat) (k : Nat) (s : E2.St) (n : Nat) (bs : List Bool) : E2.St × Nat × List Bool :=
+partial def runSched (u : Universe) (fuel : Nat) (iter : Bool) (k : Nat) (s : E2.St) (n : Nat) (bs : List Bool) : E2.St × Nat × List Bool :=
   let rec goK (s : E2.St) (i : Nat) (n : Nat) : E2.St × Nat × Bool :=
     if i == 0 then (s, n, true) else
     match E2.stepEngine u fuel s with
     | (s, some _) => goK s (i-1) (n+1)
     | (s, none) => (s, n, false)
   let (s, n, more) := goK s k n
-  let (s, b) := E2.search s 0
-  if more then runSched u fuel k s n (bs ++ [b]) else (s, n, bs ++ [b])
+  let (s, b) := if iter then E2.searchIter s 0 else E2.search s 0
+  if more then runSched u fuel iter k s n (bs ++ [b]) else (s, n, bs ++ [b])
 def showKeys (l : List (Nat × List Nat)) : String :=
   toString ((l.map (fun k => k.1 :: k.2)).mergeSort (fun a b => decide (a ≤ b)))
 def report (s : E2.St) (n : Nat) : String :=
@@ -45,10 +45,10 @@ partial def loop (h : IO.FS.Stream) (a : UAcc) : IO Unit := do
     | ["A", σ, x, rs] => loop h { a with app := a.app ++ [((σ.toNat!, x.toNat!), (rs.splitOn ";").map parseRuleOut)] }
     | ["P", i, f, e, v, y, ev] =>
       loop h { a with initial := nats i, inferral := nats f, expansion := if e = "-" then [] else (e.splitOn ";").map nats, ver := nats v, sym := nats y, ev := b ev }
-    | ["R", c, k] =>
+    | ["R", c, k, it] =>
       let u := a.toU
       let fuel := 4 * a.empty.size + 10
-      let (s, n, bs) := runSched u fuel k.toNat! (E2.initEngine u fuel c.toNat!) 0 []
+      let (s, n, bs) := runSched u fuel (b it) k.toNat! (E2.initEngine u fuel c.toNat!) 0 []
       IO.println (s!"spec={bs.map (fun b => if b then 1 else 0)} " ++ report s n); loop h a
     | _ => IO.println "bad"; loop h a
 def main : IO Unit := do loop (← IO.getStdin) {}
